@@ -269,9 +269,11 @@ fn parse_multipart_body_part(
     use ruma_common::api::error::MultipartMixedDeserializationError;
 
     // The part should start with a newline after the boundary. We need to ignore characters before
-    // it in case of extra whitespaces, and for compatibility it might not have a CR.
+    // it in case of extra whitespaces, and for compatibility it might not have a CR. The newline of
+    // the end boundary is not part of `bytes[start..end]`, so a part without any newline (e.g. two
+    // adjacent boundaries) has no headers and no separator.
     let headers_start = memchr::memchr(b'\n', &bytes[start..end])
-        .expect("the end boundary contains a newline")
+        .ok_or(MultipartMixedDeserializationError::MissingBodyPartInnerSeparator)?
         + start
         + 1;
 
